@@ -59,7 +59,7 @@ theorem frame_processCmd_state {k : Nat} {w w' : W} (hf : Frame k w w') (q : Nat
     cases dstF w d with
     | none =>
       dsimp only
-      rw [hf.cfg]
+      rw [hf.cfg.1]
       split
       · exact h0
       · split
@@ -104,7 +104,7 @@ theorem frame_processCall_state {k : Nat} {w w' : W} (hf : Frame k w w') (q : Na
       | unbind c s =>
         refine ⟨hf.loc, hf.data, hf.cfg, hf.peers, ⟨keepB, hkB, ?_⟩, hf.subs⟩
         simp only [callApply]
-        rw [hB, hf.cfg, List.filter_filter, List.filter_filter]
+        rw [hB, hf.cfg.1, List.filter_filter, List.filter_filter]
         apply TdK.filter_congr_mem
         intro b _
         exact Bool.and_comm _ _
